@@ -60,7 +60,7 @@ func (cr *caseRun) finish(name string, seed uint64, hidden []int, ignore []int, 
 	for i, h := range ignore {
 		is[i] = strconv.Itoa(h)
 	}
-	coq := fmt.Sprintf("(mkCaseX (mkCfg %d %s) [\n%s] [%s] [%s])", cr.memq, z(int64(cr.opts.MaxMsgTimeout)),
+	coq := fmt.Sprintf(wrapPre+"(mkCaseX (mkCfg %d %s) [\n%s] [%s]%%N [%s]%%N)"+wrapPost, cr.memq, z(int64(cr.opts.MaxMsgTimeout)),
 		strings.Join(cr.events, ";\n"), strings.Join(hs, ";"), strings.Join(is, ";"))
 	return lib.Case{Name: name, Coq: coq,
 		Input:      map[string]interface{}{"seed": seed, "profile": "fine", "fine": strings.SplitN(name, "#", 2)[0], "name": name},
@@ -104,7 +104,7 @@ func fineSubWhilePumpBusy(seed uint64) []lib.Case {
 	ids, total, now := cr.rawPub(1, 1)
 	ok := waitReached(reached, 3*time.Second)
 	cr.tag(fmt.Sprintf("pump-parked=%v", ok))
-	cr.ev(fmt.Sprintf("EOp (OPub 1 false [%s] %d 0%%Z %s) ROk", strings.Join(ids, ";"), total, z(now)))
+	cr.ev(fmt.Sprintf("EOp (OPub 1 false [%s]%%N %d 0%%Z %s) ROk", strings.Join(ids, ";"), total, z(now)))
 	// a second consumer subscribes to a NEW channel while the pump is mid-message: the
 	// SUB's channel-update notice must not be lost
 	k2 := cr.opConnect(false, false)
@@ -160,7 +160,7 @@ func fineEmptyWhileDelivering(seed uint64) []lib.Case {
 		ids, total, now := cr.rawPub(1, 1)
 		ok := waitReached(reached, 3*time.Second)
 		cr.tag(fmt.Sprintf("delivery-parked=%v", ok))
-		cr.ev(fmt.Sprintf("EOp (OPub 1 false [%s] %d 0%%Z %s) ROk", strings.Join(ids, ";"), total, z(now)))
+		cr.ev(fmt.Sprintf("EOp (OPub 1 false [%s]%%N %d 0%%Z %s) ROk", strings.Join(ids, ";"), total, z(now)))
 		// the message is in the in-flight map, not yet in the pqueue, no frame sent yet
 		code := cr.post("/channel/empty", url.Values{"topic": {tname(1)}, "channel": {cname(1)}}, nil)
 		release()
